@@ -454,3 +454,93 @@ mod test {
         // TODO: Write a similar test to benchmark buffer vs channels
     }
 }
+
+/// A link whose `Event::Connect` has been sent but whose ConnAck has not been collected
+/// yet: the two halves of [`LinkBuilder::build`] without the blocking `recv()` in between,
+/// so that a single thread can step the router between them.
+#[cfg(feature = "verif")]
+pub struct PendingLink {
+    router_tx: Sender<(ConnectionId, Event)>,
+    link_rx: Receiver<()>,
+    outgoing_data_buffer: Arc<Mutex<VecDeque<Notification>>>,
+    incoming_data_buffer: Arc<Mutex<VecDeque<Packet>>>,
+}
+
+/// The raw pieces a link shares with the router.
+#[cfg(feature = "verif")]
+pub struct VerifLink {
+    pub id: ConnectionId,
+    pub connack: Notification,
+    pub router_tx: Sender<(ConnectionId, Event)>,
+    /// wake-up handle the router `try_send`s on
+    pub wake: Receiver<()>,
+    pub ibuf: Arc<Mutex<VecDeque<Packet>>>,
+    pub obuf: Arc<Mutex<VecDeque<Notification>>>,
+}
+
+#[cfg(feature = "verif")]
+impl<'a> LinkBuilder<'a> {
+    /// First half of `build()`: create the connection and send `Event::Connect`.
+    pub fn verif_split(self) -> Result<PendingLink, LinkError> {
+        let mut connection = Connection::new(
+            self.tenant_id,
+            self.client_id.to_owned(),
+            self.clean_session,
+            self.dynamic_filters,
+        );
+
+        connection
+            .last_will(self.last_will, self.last_will_properties)
+            .topic_alias_max(self.topic_alias_max);
+        let incoming = Incoming::new(connection.client_id.to_owned());
+        let (outgoing, link_rx) = Outgoing::new(connection.client_id.to_owned());
+        let outgoing_data_buffer = outgoing.buffer();
+        let incoming_data_buffer = incoming.buffer();
+
+        let event = Event::Connect {
+            connection,
+            incoming,
+            outgoing,
+        };
+
+        self.router_tx.try_send((0, event))?;
+
+        Ok(PendingLink {
+            router_tx: self.router_tx,
+            link_rx,
+            outgoing_data_buffer,
+            incoming_data_buffer,
+        })
+    }
+}
+
+#[cfg(feature = "verif")]
+impl PendingLink {
+    /// Second half of `build()`, non-blocking: `Err(self)` while the router has not
+    /// answered; `Ok(None)` when the router refused (dropped the handle without a ConnAck).
+    pub fn finish(self) -> Result<Option<VerifLink>, PendingLink> {
+        match self.link_rx.try_recv() {
+            Ok(()) => {}
+            Err(flume::TryRecvError::Empty) => return Err(self),
+            Err(flume::TryRecvError::Disconnected) => return Ok(None),
+        }
+
+        let Some(notification) = self.outgoing_data_buffer.lock().pop_front() else {
+            return Ok(None);
+        };
+
+        let id = match notification {
+            Notification::DeviceAck(Ack::ConnAck(id, ..)) => id,
+            _message => return Ok(None),
+        };
+
+        Ok(Some(VerifLink {
+            id,
+            connack: notification,
+            router_tx: self.router_tx,
+            wake: self.link_rx,
+            ibuf: self.incoming_data_buffer,
+            obuf: self.outgoing_data_buffer,
+        }))
+    }
+}
